@@ -14,7 +14,7 @@ from sa.facts import Program, walk
 from sa.sym import I, ZERO
 
 P = lambda p, f: sym.arrow(sym.sym(p), f)
-NOINLINE = summ.InlineLib(only=lambda f: False)
+NOINLINE = summ.LOCAL_HELPERS
 
 
 def unsigned_shift_sites(fn):
